@@ -36,12 +36,12 @@ InitBuilt ==
   /\ last = [a |-> "Init", p |-> "", verdict |-> "ok", S |-> {}]
   /\ hist = <<>>
 
-IKindSeq == <<"addfn", "sig", "field", "variant", "traitmethod", "impl", "removefn">>
+IKindSeq == <<"addfn", "sig", "field", "variant", "traitmethod", "impl", "removefn", "reorderfields", "reordervariants">>
 BKindSeq == <<"const", "let", "rename">>
 KOff == IF "KOFF" \in DOMAIN IOEnv THEN atoi(IOEnv.KOFF) ELSE 0
 PkgSeq == SetToSeq(Pkgs)
 PIdx(p) == CHOOSE i \in 1..Len(PkgSeq) : PkgSeq[i] = p
-IKindOf(p) == IKindSeq[((srcI[p] + 3 * PIdx(p) + KOff) % 7) + 1]
+IKindOf(p) == IKindSeq[((srcI[p] + 3 * PIdx(p) + KOff) % 9) + 1]
 BKindOf(p) == BKindSeq[((srcB[p] + PIdx(p) + KOff) % 3) + 1]
 
 SimLinkSets == {Pkgs} \cup {Pkgs \ {p} : p \in Pkgs}
@@ -58,16 +58,17 @@ SimNext ==
 (* is either rebuilt or left as it is (a body edit marks "not rebuilt" in the history); then everything is linked.  Exhaustive:  *)
 (* |Pkgs| * 2^|Pkgs| behaviours per graph - every combination of a changed interface with fresh and stale dependents, which is *)
 (* where a link check that looks at only some of the (dependent, dependency) edges goes wrong.                                  *)
+SweepAllKinds == IF "SWEEPKINDS" \in DOMAIN IOEnv THEN IOEnv.SWEEPKINDS = "all" ELSE FALSE
 Topo == IF Pkgs = Diamond4 THEN <<"A", "B", "C", "Main">> ELSE <<"A", "B", "Main">>
 SweepNext ==
   LET k == Len(hist) n == Len(Topo) IN
-  \/ k = 0 /\ \E p \in Pkgs : EditI(p, IKindOf(p))
+  \/ k = 0 /\ \E p \in Pkgs : IF SweepAllKinds THEN \E kind \in {IKindSeq[i] : i \in DOMAIN IKindSeq} : EditI(p, kind) ELSE EditI(p, IKindOf(p))
   \/ k \in 1..n /\ (Build(Topo[k]) \/ EditB(Topo[k], BKindOf(Topo[k])))
   \/ k = n + 1 /\ Link(Pkgs)
 SweepSpec == InitBuilt /\ [][SweepNext]_vars
 
 SimSpec == InitBuilt /\ [][SimNext]_vars
 SimSpecCold == Init /\ [][SimNext]_vars
-IKinds == {"addfn", "sig", "field", "variant", "traitmethod", "impl", "removefn"}
+IKinds == {"addfn", "sig", "field", "variant", "traitmethod", "impl", "removefn", "reorderfields", "reordervariants"}
 BKinds == {"const", "let", "rename"}
 =============================================================================
